@@ -260,7 +260,7 @@ Definition proto_ok (st : state) (o : op) : bool :=
   | OpDestroy h =>
       handle_ok st h &&
       (negb (Nat.eqb (prefs (pools st (hpool (handles st h)))) 1) || no_blocks_of st (hpool (handles st h)))
-  | OpAlloc h n grow => handle_ok st h && (0 <=? n)
+  | OpAlloc h n grow => handle_ok st h && (1 <=? n)      (* allocate(0) trips MOMO_ASSERT(size > 0) in MemManagerProxy::Allocate *)
   | OpDealloc h b n shrink =>
       (* deallocate(p, n): p was returned by allocate(n) of an EQUAL allocator (same pool) of the same type *)
       let B := blocks st b in
